@@ -28,6 +28,10 @@ class Machinery(Exception):
     """The verification machinery itself failed (exit 2)."""
 
 
+class NotEvaluable(Machinery):
+    """TLC could not evaluate a trace module on the recorded events."""
+
+
 def log(*a):
     print(*a, flush=True)
 
@@ -191,7 +195,7 @@ def tla_value_scan(out, tag):
 
 
 # ------------------------------------------------------------------ trace validation
-def validate_trace(module, events, cfg=None, env=None, timeout=3600, keep=None, heap="6g"):
+def _validate_once(module, events, cfg=None, env=None, timeout=3600, keep=None, heap="6g"):
     """Validate a list of event dicts with spec/<module>.tla (a *Trace module).
 
     Protocol of every trace module (see spec/TraceBase.tla):
@@ -244,8 +248,12 @@ def validate_trace(module, events, cfg=None, env=None, timeout=3600, keep=None, 
             consumed = int(m.group(1))
             nbad = int(m.group(2))
     if consumed is None or not r["ok"] and not r["violated"] and consumed != len(events):
-        raise Machinery("trace validation with %s did not complete: %s\n%s"
-                        % (module, r["error"], out[-4000:]))
+        crashed = ("unexpected exception" in out or "evaluating" in out or "Attempted to" in out) and "TLC TIMEOUT" not in out
+        m = (re.search(r"produced the following error:\s*\n?([^\n]*)", out)
+             or re.search(r"The exception was a [^\n]*\n:? ?([^\n]*(?:\n[^\n]*){0,2})", out)
+             or re.search(r"Error: ([^\n]*(?:\n[^\n]*){0,3})", out))
+        raise (NotEvaluable if crashed else Machinery)("trace validation with %s did not complete: %s\n%s"
+                        % (module, (m.group(1) if m else r["error"]), out[-4000:]))
     if consumed != len(events):
         raise Machinery("trace module %s consumed %s of %d lines\n%s"
                         % (module, consumed, len(events), out[-3000:]))
@@ -255,6 +263,66 @@ def validate_trace(module, events, cfg=None, env=None, timeout=3600, keep=None, 
                         % (module, nbad, len(uniq), out[-3000:]))
     return {"consumed": consumed, "n": len(events), "rejects": uniq, "out": out,
             "wall_s": r["wall_s"], "states": r["states"], "distinct": r["distinct"]}
+
+
+def validate_trace(module, events, cfg=None, env=None, timeout=3600, keep=None, heap="6g"):
+    """_validate_once, made total.  A trace module is written to give a verdict on every event, but an
+    observation of a shape the module does not foresee (a result vector of another length, a missing field)
+    makes TLC's evaluation fail instead.  In that case the log is split at trace-id boundaries (leading
+    events with tid 0 are a header kept in every part) until the groups that cannot be evaluated are
+    isolated; each is reported as a rejected event with clause "not-evaluable".  More than 20 such groups
+    are taken as a fault of the machinery, not of the observations."""
+    try:
+        return _validate_once(module, events, cfg, env, timeout, keep, heap)
+    except NotEvaluable as first:
+        nh = 0
+        while nh < len(events) and events[nh].get("tid") in (0, None):
+            nh += 1
+        header = events[:nh]
+        groups = []          # (start index in events, end index)
+        i = nh
+        while i < len(events):
+            j = i
+            while j < len(events) and events[j].get("tid") == events[i].get("tid"):
+                j += 1
+            groups.append((i, j))
+            i = j
+        if not groups:
+            raise Machinery(str(first))
+        total = {"consumed": len(events), "n": len(events), "rejects": [], "out": "", "wall_s": 0.0, "states": 0, "distinct": 0}
+        bad_groups = []
+
+        def solve(a, b):
+            lo, hi = groups[a][0], groups[b - 1][1]
+            try:
+                v = _validate_once(module, header + events[lo:hi], cfg, env, timeout, None, heap)
+            except NotEvaluable as exc:
+                if b - a == 1:
+                    bad_groups.append((a, str(exc)))
+                    if len(bad_groups) > 20:
+                        raise Machinery("more than 20 event groups cannot be evaluated by %s: %s" % (module, str(exc)[:3000]))
+                    return
+                mid = (a + b) // 2
+                solve(a, mid)
+                solve(mid, b)
+                return
+            for tid, line, clause, detail in v["rejects"]:
+                orig = line if line <= nh else lo + (line - nh)
+                total["rejects"].append((tid, orig, clause, detail))
+            total["out"] += v["out"]
+            total["wall_s"] += v["wall_s"]
+            total["states"] += v["states"]
+        solve(0, len(groups))
+        for a, msg in bad_groups:
+            lo = groups[a][0]
+            total["rejects"].append((events[lo].get("tid"), lo + 1, "not-evaluable", msg.split("\n")[0][:400]))
+        seen, uniq = set(), []
+        for x in sorted(total["rejects"], key=lambda x: x[1]):
+            if x[:4] not in seen:
+                seen.add(x[:4])
+                uniq.append(x)
+        total["rejects"] = uniq
+        return total
 
 
 # ------------------------------------------------------------------ workers (import sasmodels)
